@@ -6,6 +6,7 @@ import ISnap.Model.Value
 import ISnap.Driver.SiteCmd
 import ISnap.Driver.AlignCmd
 import ISnap.Driver.StrCmd
+import ISnap.Driver.RewriteCmd
 /-
   isnap-driver: one s-expression per line in, one per line out (DESIGN.md §3.7).
   Unknown or malformed input answers `(bad-op)`, never a default.
@@ -19,6 +20,8 @@ def handle (e : Sexp) : Sexp :=
   | .list (.atom c :: rest) =>
     if c == "strlit" || c == "pyrepr" || c == "bytesrepr" || c == "evallit" || c == "evalbytes" then
       (StrCmd.run c rest).getD (.list [.atom "bad-op"])
+    else if c == "newcode" || c == "linecol" then
+      (RewriteCmd.run c rest).getD (.list [.atom "bad-op"])
     else if c == "ping" then .list [.atom "pong"] else .list [.atom "bad-op"]
   | _ => .list [.atom "bad-op"]
 
